@@ -3,6 +3,7 @@
 Rules compare shapes of code; several spellings of the same behaviour must therefore look the same.  The pass rewrites, keeping line numbers:
     N1  a > b  ->  b < a ;  a >= b -> b <= a                      (single-operator comparisons)
     N2  if not C: A else: B  ->  if C: B else: A                  (whenever there is an else / elif part)
+    N6  if C: ...return / raise  else: B  ->  if C: ...return / raise ; B   (an arm that always leaves is the `if` body, the other arm follows the if)
     N3  X = E; return X  ->  return E                             (adjacent statements; X not captured by a nested function)
     N4  operands of + and * chains in a fixed order (constants last)   (only where no operand can be a string / list / tuple; never matrix products)
 The pass is idempotent.  `tools/metamorph.py` applies the inverse spellings to the whole repository and requires every check to stay silent.
@@ -62,6 +63,30 @@ class _Commute(ast.NodeTransformer):
     visit_BinOp = _visit_BinOp
 
 
+class _Passthrough:
+    """a _Stmts whose per-statement step is the identity (used to re-run the block-level rewrites on statements that are already canonical)"""
+
+    def __init__(self, func):
+        self.func = func
+
+    def stmt(self, st):
+        return st
+
+    def block_done(self, stmts):
+        return _Stmts.block(self, stmts)
+
+
+def _terminates(body) -> bool:
+    if not body:
+        return False
+    last = body[-1]
+    if isinstance(last, (ast.Return, ast.Raise, ast.Continue, ast.Break)):
+        return True
+    if isinstance(last, ast.If):
+        return _terminates(last.body) and _terminates(last.orelse)
+    return False
+
+
 def _names(node: ast.AST, ident: str):
     return [x for x in ast.walk(node) if isinstance(x, ast.Name) and x.id == ident]
 
@@ -89,9 +114,30 @@ class _Stmts:
                     out.append(ast.copy_location(ast.Return(value=st.value), st))
                     i += 2
                     continue
-            out.append(st)
+            if isinstance(st, ast.If) and st.orelse and _terminates(st.body):
+                # ... and N6: the other arm follows the if instead of hanging in an else
+                rest, st.orelse = st.orelse, []
+                out.append(st)
+                out.extend(rest)
+            else:
+                out.append(st)
+            # when both the branch and everything after it leave the function, the two are the arms of one test: the positive test comes first (N2 for the else-less spelling)
+            last = out[-1] if not (isinstance(st, ast.If) and out and out[-1] is not st) else None
+            k = len(out) - 1
+            while k >= 0 and out[k] is not st:
+                k -= 1
+            if (isinstance(st, ast.If) and k >= 0 and not st.orelse and _terminates(st.body) and isinstance(st.test, ast.UnaryOp) and isinstance(st.test.op, ast.Not)):
+                tail = out[k + 1:] + [self.stmt(x) for x in body[i + 1:]]
+                if tail and _terminates(tail):
+                    tail = self.block_done(tail)
+                    new_if = ast.copy_location(ast.If(test=st.test.operand, body=tail, orelse=[]), st)
+                    return out[:k] + [new_if] + st.body
             i += 1
         return out
+
+    def block_done(self, stmts: List[ast.stmt]) -> List[ast.stmt]:
+        """statements that were already processed one by one: only the block-level rewrites (N3, N6 hoisting) remain to be applied"""
+        return _Stmts.block(_Passthrough(self.func), stmts)
 
     def stmt(self, st: ast.stmt) -> ast.stmt:
         if isinstance(st, (ast.FunctionDef, ast.AsyncFunctionDef)):
@@ -114,8 +160,15 @@ class _Stmts:
             for h in st.handlers:
                 h.body = self.block(h.body)
         if isinstance(st, ast.If) and st.orelse:
+            tb, te = _terminates(st.body), _terminates(st.orelse)
             t = st.test
-            if isinstance(t, ast.UnaryOp) and isinstance(t.op, ast.Not):
+            negated = isinstance(t, ast.UnaryOp) and isinstance(t.op, ast.Not)
+            if te and not tb:
+                # N6: the arm that always leaves (return / raise / continue / break) becomes the `if` body ...
+                st.test = t.operand if negated else ast.copy_location(ast.UnaryOp(op=ast.Not(), operand=t), t)
+                st.body, st.orelse = st.orelse, st.body
+            elif negated and not (tb and not te):
+                # N2
                 st.test, st.body, st.orelse = t.operand, st.orelse, st.body
         return st
 
